@@ -30,12 +30,14 @@ Variable S : SC.
 Definition m_at (m : list T) (i j : nat) : T := nth (4 * i + j) m (sc_zero S).
 
 (* Affine3 product `a * b` (apply b first).  Entry order of nalgebra's gemm:
-   ((a_i0*b_0j + a_i1*b_1j) + a_i2*b_2j) [+ a_i3 for the translation column] *)
+   (((a_i0*b_0j + a_i1*b_1j) + a_i2*b_2j) + a_i3*b_3j) over the full 4x4 matrices, the last row of b
+   being exactly (0 0 0 1): the term a_i3*0 is kept, it turns a -0 sum into +0 and an infinite
+   translation into NaN *)
 Definition aff_mul (a b : list T) : list T :=
   let e i j :=
     let s := sc_add S (sc_add S (sc_mul S (m_at a i 0) (m_at b 0 j)) (sc_mul S (m_at a i 1) (m_at b 1 j)))
                      (sc_mul S (m_at a i 2) (m_at b 2 j)) in
-    if Nat.eqb j 3 then sc_add S s (m_at a i 3) else s in
+    sc_add S s (sc_mul S (m_at a i 3) (if Nat.eqb j 3 then sc_one S else sc_zero S)) in
   [e 0 0; e 0 1; e 0 2; e 0 3; e 1 0; e 1 1; e 1 2; e 1 3; e 2 0; e 2 1; e 2 2; e 2 3].
 
 (* Tree::remap_xyz / Tree::remap_affine *)
